@@ -52,9 +52,13 @@ Blocks == {<<"if", "other">>, <<"else", "else">>, <<"try", "-">>, <<"except", "-
 AlphaBind ==   \* tie-break, kinds, parents
   {<<"def", "none">>, <<"class", "none">>, <<"assign", "plain">>, <<"assign", "annonly">>, <<"import", "from">>,
    <<"init", "-">>, <<"assign", "self">>} \cup Blocks
+AlphaCond ==   \* the tie-break under conditions: one name, longer programs
+  {<<"assign", "plain">>, <<"def", "none">>, <<"import", "from">>, <<"if", "other">>, <<"else", "else">>, <<"try", "-">>, <<"except", "-">>, <<"with", "-">>}
 AlphaGuard ==  \* runtime flag
   {<<"def", "none">>, <<"class", "none">>, <<"assign", "plain">>, <<"import", "mod">>, <<"init", "-">>, <<"assign", "self">>,
    <<"if", "TC">>, <<"if", "tTC">>, <<"if", "other">>, <<"else", "else">>, <<"else", "elifTC">>, <<"with", "-">>}
+AlphaGuardDeep ==  \* few statements, deep nesting: the flag under nested / chained ifs
+  {<<"assign", "plain">>, <<"class", "none">>, <<"if", "TC">>, <<"if", "other">>, <<"else", "else">>, <<"else", "elif">>, <<"else", "elifTC">>, <<"with", "-">>}
 AlphaDeco ==   \* decorators -> kinds and labels, overload stash, accessors
   {<<"def", "none">>, <<"def", "async">>, <<"def", "property">>, <<"def", "cached_property">>, <<"def", "staticmethod">>,
    <<"def", "classmethod">>, <<"def", "abstractmethod">>, <<"def", "cache">>, <<"def", "lru_cache">>, <<"def", "unknown">>,
@@ -68,7 +72,7 @@ AlphaAttr ==   \* attribute variants: annotations, ClassVar, instance attributes
   {<<"assign", "plain">>, <<"assign", "ann">>, <<"assign", "annonly">>, <<"assign", "classvar">>, <<"assign", "multi">>,
    <<"assign", "attr">>, <<"assign", "self">>, <<"assign", "selfann">>, <<"class", "none">>, <<"init", "-">>, <<"def", "property">>,
    <<"if", "other">>, <<"else", "else">>}
-AlphaAll == AlphaBind \cup AlphaGuard \cup AlphaDeco \cup AlphaImp \cup AlphaAttr
+AlphaAll == AlphaBind \cup AlphaCond \cup AlphaGuard \cup AlphaGuardDeep \cup AlphaDeco \cup AlphaImp \cup AlphaAttr
 AlphaSmoke == {<<"def", "none">>, <<"class", "none">>, <<"assign", "plain">>, <<"if", "TC">>, <<"if", "other">>, <<"init", "-">>,
                <<"def", "overload">>, <<"def", "staticmethod">>}
 
@@ -109,6 +113,7 @@ CanAppend(p, l) ==
      /\ (l.k = "except" => (IF j = 0 THEN FALSE ELSE p[j].d = l.d /\ p[j].k \in {"try", "except"}))
      /\ (SelfAssign(l) => \E a \in enc : p[a].k = "init")                     \* self.x = ... only inside an __init__
      /\ (l.k = "all" => \A a \in enc : p[a].k \notin {"class", "init"})       \* __all__ only at module level
+     /\ ((l.k = "import" /\ l.x = "star") => \A a \in enc : p[a].k \notin {"class", "init"})   \* SyntaxError elsewhere
      \* names are interchangeable: canonical programs introduce them in the order f, g, h
      /\ \A q \in 2..3 : NameOrder[q] \in UsedNames(l) => NameOrder[q - 1] \in UsedNames(l) \cup UNION {UsedNames(p[i]) : i \in 1..n}
 
@@ -179,13 +184,20 @@ LeaveOther ==         \* __init__ body (current = current.parent, no event), try
 
 Ready == phase = "run" /\ outcome = "ok" /\ ~EOF /\ ~NeedPop
 Visiting == Ready /\ Top.t # "skip"
+IsTCLine(l) == (l.k = "if" /\ l.x \in {"TC", "tTC"}) \/ (l.k = "else" /\ l.x = "elifTC")
+\* "lexically inside the body of an `if TYPE_CHECKING`" (the reference for the flag, see RefGuarded)
+LexGuarded(i) == \E a \in Anc(prog, i) : IsTCLine(prog[a])
+\* flag discipline, recorded while walking: at every visited line the flag equals the lexical reference
+Observe == flagok' = (flagok /\ (IF Ready /\ Top.t # "skip" /\ ~Continues THEN guarded = LexGuarded(cursor) ELSE TRUE))
 
 SkipLine ==           \* body of a def that handle_function does not enter
+  /\ Observe
   /\ Ready /\ Top.t = "skip" /\ Advance
   /\ stack' = IF Opener(Line) /\ ~Continues THEN Push("skip", cursor, Line.d + 1) ELSE stack
   /\ UNCHANGED <<guarded, tree, imps, exps, stash, events, placed, outcome>>
 
 VisitClassDef ==
+  /\ Observe
   /\ Visiting /\ Line.k = "class" /\ Advance
   /\ tree' = SetMember(tree, Mem(Cur, Line.n, cursor, "class", {}, <<>>, <<>>))
   /\ placed' = placed \cup {<<cursor, Line.n, Cur>>}
@@ -195,6 +207,7 @@ VisitClassDef ==
 
 \* handle_function, outcome 1: "property" in labels -> an Attribute replaces, no body visit
 MakeProperty ==
+  /\ Observe
   /\ Visiting /\ Line.k = "def" /\ "property" \in DecoLab(Line.x) /\ Advance
   /\ tree' = SetMember(tree, Mem(Cur, Line.n, cursor, "attribute", DecoLab(Line.x), <<>>, <<>>))
   /\ placed' = placed \cup {<<cursor, Line.n, Cur>>}
@@ -202,6 +215,7 @@ MakeProperty ==
   /\ UNCHANGED <<stack, guarded, imps, exps, stash, outcome>>
 \* outcome 2: typing.overload -> self.current.overloads[name].append(function); Function.overloads is None
 StashOverload ==
+  /\ Observe
   /\ Visiting /\ Line.k = "def" /\ Line.x = "overload" /\ Advance
   /\ IF CurFrame.t = "init"
        THEN outcome' = "TypeError" /\ UNCHANGED <<stash, events>>
@@ -211,12 +225,14 @@ StashOverload ==
 \* outcome 3: @name.setter on a member of `current` carrying the "property" label
 HasProperty(n) == \E m \in Existing(tree, Cur, n) : m.k # "alias" /\ "property" \in m.lab
 AttachAccessor ==
+  /\ Observe
   /\ Visiting /\ Line.k = "def" /\ Line.x = "setter" /\ HasProperty(Line.n) /\ Advance
   /\ tree' = {IF m.s = Cur /\ m.n = Line.n THEN [m EXCEPT !.lab = @ \cup {"writable"}] ELSE m : m \in tree}
   /\ events' = Append(events, Ev("inst", cursor, Line.n))
   /\ UNCHANGED <<stack, guarded, imps, exps, stash, placed, outcome>>
 \* outcome 4: set_member + adoption of the stashed overloads (only when current is a module or class)
 PlaceFunction ==
+  /\ Observe
   /\ Visiting /\ Advance
   /\ \/ Line.k = "init"
      \/ Line.k = "def" /\ "property" \notin DecoLab(Line.x) /\ Line.x # "overload" /\ (Line.x = "setter" => ~HasProperty(Line.n))
@@ -231,6 +247,7 @@ PlaceFunction ==
   /\ UNCHANGED <<guarded, imps, exps, outcome>>
 
 VisitImport ==        \* visit_import / visit_importfrom: imports map (not for *), Alias member, on_alias
+  /\ Observe
   /\ Visiting /\ Line.k = "import" /\ Advance
   /\ imps' = IF Line.x = "star" THEN imps
              ELSE {r \in imps : ~(r.s = Cur /\ r.n = Line.n)} \cup {[s |-> Cur, n |-> Line.n, p |-> ImpPath(Line.x, Line.n)]}
@@ -260,6 +277,7 @@ AttrStep(acc, name) ==
            pl |-> acc.pl \cup {<<cursor, name, AttrParent>>},
            xp |-> IF name = "__all__" THEN ExportList(Line.x) ELSE acc.xp]
 HandleAttribute ==
+  /\ Observe
   /\ Visiting /\ (Line.k = "assign" \/ (Line.k = "all" /\ Line.x # "aug")) /\ Advance
   /\ LET a0 == [T |-> tree, labs |-> AttrLabels(CurFrame.t, Line.x), ev |-> events, pl |-> placed, xp |-> exps]
          a1 == IF Len(AttrNames) >= 1 THEN AttrStep(a0, AttrNames[1]) ELSE a0
@@ -267,26 +285,30 @@ HandleAttribute ==
      IN tree' = a2.T /\ events' = a2.ev /\ placed' = a2.pl /\ exps' = a2.xp
   /\ UNCHANGED <<stack, guarded, imps, stash, outcome>>
 VisitAugAssign ==     \* __all__ += [...]: current.exports.extend(...), AttributeError (exports is None) suppressed
+  /\ Observe
   /\ Visiting /\ Line.k = "all" /\ Line.x = "aug" /\ Advance
   /\ exps' = IF CurFrame.t = "module" /\ exps # NoAll THEN exps \o ExportList("aug") ELSE exps
   /\ UNCHANGED <<stack, guarded, tree, imps, stash, events, placed, outcome>>
 
-IsTCLine(l) == (l.k = "if" /\ l.x \in {"TC", "tTC"}) \/ (l.k = "else" /\ l.x = "elifTC")
 EnterIf ==            \* visit_if: the flag is set only when the If node's parent is a Module or ClassDef
+  /\ Observe
   /\ Visiting /\ Line.k = "if" /\ Advance
   /\ guarded' = IF Top.t \in {"module", "class"} /\ IsTCLine(Line) THEN TRUE ELSE guarded
   /\ stack' = Push("if", cursor, Line.d + 1)
   /\ UNCHANGED <<tree, imps, exps, stash, events, placed, outcome>>
 EnterElse ==          \* orelse of the If on top; `elif` = a nested If whose parent is that If (never sets the flag)
+  /\ Observe
   /\ phase = "run" /\ outcome = "ok" /\ Continues /\ Line.k = "else" /\ Advance
   /\ LET s1 == [stack EXCEPT ![Len(stack)].part = "else"]
      IN stack' = IF Line.x = "else" THEN s1 ELSE Append(s1, [t |-> "if", l |-> cursor, bd |-> Line.d + 1, part |-> "body"])
   /\ UNCHANGED <<guarded, tree, imps, exps, stash, events, placed, outcome>>
 EnterExcept ==
+  /\ Observe
   /\ phase = "run" /\ outcome = "ok" /\ Continues /\ Line.k = "except" /\ Advance
   /\ stack' = [stack EXCEPT ![Len(stack)].part = "else"]
   /\ UNCHANGED <<guarded, tree, imps, exps, stash, events, placed, outcome>>
 EnterBlock ==         \* try / with / for / while: generic_visit
+  /\ Observe
   /\ Visiting /\ Line.k \in {"try", "with"} /\ Advance
   /\ stack' = Push(Line.k, cursor, Line.d + 1)
   /\ UNCHANGED <<guarded, tree, imps, exps, stash, events, placed, outcome>>
@@ -319,7 +341,7 @@ Cond(i) == IF Par(P, i) = 0 THEN FALSE ELSE P[Par(P, i)].k \in {"if", "else", "e
 CondAssign(i) == P[i].k \in {"assign", "all"} /\ Cond(i)
 Eff(s, n) == {i \in B(s, n) : i = MinOf(B(s, n)) \/ ~CondAssign(i)}    \* bindings that take effect
 Surv(s, n) == MaxOf(Eff(s, n))                                          \* later definitions win
-RefGuarded(i) == \E a \in Anc(P, i) : IsTCLine(P[a])
+RefGuarded(i) == LexGuarded(i)
 RefKind(i) == CASE P[i].k = "class" -> "class" [] P[i].k = "import" -> "alias" [] P[i].k \in {"assign", "all"} -> "attribute"
                 [] P[i].k = "def" /\ "property" \in DecoLab(P[i].x) -> "attribute" [] OTHER -> "function"
 AllNames == Names \cup {"__init__", "__all__", "zz/*"}
@@ -331,7 +353,7 @@ RefMember(s, n) ==
   [s |-> s, n |-> n, l |-> i, k |-> RefKind(i), rt |-> ~RefGuarded(i),
    dl |-> (IF P[i].k = "def" THEN DecoLab(P[i].x) ELSE {}) \cup (IF Setters(s, n, i) # {} THEN {"writable"} ELSE {}),
    p |-> IF P[i].k = "import" THEN ImpPath(P[i].x, P[i].n) ELSE <<>>,
-   chain |-> SortedSeq(Eff(s, n))]
+   chain |-> SortedSeq(Eff(s, n)), b |-> SortedSeq(B(s, n))]
 RefAll == {RefMember(t[1], t[2]) : t \in {u \in Scopes \X AllNames : B(u[1], u[2]) # {}}}
 \* the tree hangs from the module: members of a class that lost its name to a later binding are gone with it
 RECURSIVE Reach(_, _)
@@ -341,7 +363,7 @@ RefTree == Reach(RefAll, MaxDepth + 1)
 LastImport(s, n) ==
   LET S == {i \in 1..N : P[i].k = "import" /\ P[i].x # "star" /\ P[i].n = n /\ BindScope(i) = s} IN IF S = {} THEN 0 ELSE MaxOf(S)
 RefImports ==
-  {[s |-> t[1], n |-> t[2], p |-> ImpPath(P[LastImport(t[1], t[2])].x, t[2])] : t \in {u \in Scopes \X Names : LastImport(u[1], u[2]) # 0}}
+  {[s |-> t[1], n |-> t[2], l |-> LastImport(t[1], t[2]), p |-> ImpPath(P[LastImport(t[1], t[2])].x, t[2])] : t \in {u \in Scopes \X Names : LastImport(u[1], u[2]) # 0}}
 RECURSIVE Concat(_)
 Concat(ss) == IF ss = <<>> THEN <<>> ELSE Head(ss) \o Concat(Tail(ss))
 RefExports ==
@@ -403,9 +425,6 @@ Crash ==              \* an exception escaped the visitor
   /\ phase' = "done" /\ res' = Compute
   /\ UNCHANGED <<prog, cursor, stack, guarded, tree, imps, exps, stash, events, placed, outcome, flagok>>
 
-\* flag discipline, recorded while walking: at every visited line the flag equals the lexical reference
-Observe == flagok' = (flagok /\ (IF Ready /\ Top.t # "skip" /\ ~Continues THEN guarded = RefGuarded(cursor) ELSE TRUE))
-
 \* ---- environment ----------------------------------------------------------------------------------------
 AddLine ==
   /\ phase = "build" /\ Len(prog) < MaxLen
@@ -422,11 +441,11 @@ Init ==
   /\ guarded = FALSE /\ tree = {} /\ imps = {} /\ exps = NoAll /\ stash = {}
   /\ events = <<>> /\ placed = {} /\ outcome = "ok" /\ flagok = TRUE /\ res = <<>>
 
-VisitorStep ==
+Next ==
+  \/ AddLine \/ VisitModule
   \/ LeaveIf \/ LeaveClass \/ LeaveOther \/ EndModule \/ Crash
-  \/ (Observe /\ (SkipLine \/ VisitClassDef \/ MakeProperty \/ StashOverload \/ AttachAccessor \/ PlaceFunction
-                  \/ VisitImport \/ HandleAttribute \/ VisitAugAssign \/ EnterIf \/ EnterElse \/ EnterExcept \/ EnterBlock))
-Next == AddLine \/ VisitModule \/ VisitorStep
+  \/ SkipLine \/ VisitClassDef \/ MakeProperty \/ StashOverload \/ AttachAccessor \/ PlaceFunction
+  \/ VisitImport \/ HandleAttribute \/ VisitAugAssign \/ EnterIf \/ EnterElse \/ EnterExcept \/ EnterBlock
 Spec == Init /\ [][Next]_vars
 
 \* ====================================================================================================
@@ -449,7 +468,7 @@ FlagDiscipline == (Done /\ Demand(GuardHz)) => flagok
 LabelsFaithful == (Ok /\ res.wf /\ Demand({"label-inherit"})) =>
    \A m \in Common(res.impl, res.ref) : \A r \in res.ref : (r.s = m.s /\ r.n = m.n) => r.dl = m.lab \cap DecoU
 \* import map and exports
-ImportsFaithful == (Ok /\ res.wf /\ Demand({"init-local"})) => res.iimps = res.rimps
+ImportsFaithful == (Ok /\ res.wf /\ Demand({"init-local"})) => res.iimps = {[s |-> r.s, n |-> r.n, p |-> r.p] : r \in res.rimps}
 ExportsFaithful == (Ok /\ res.wf) => exps = res.rexps
 \* events: every object placed in the tree is announced exactly once ...
 Announce(o) == {q \in 1..Len(events) : events[q].e \in {"inst", "alias"} /\ events[q].l = o[1] /\ events[q].n = o[2]}
